@@ -1,5 +1,13 @@
+mod ast;
+mod dbgparse;
+mod diff;
+mod difftest;
 mod engine;
+mod gen;
+mod printer;
+mod refint;
 mod lattice;
+mod minimize;
 mod props;
 mod report;
 mod shapes;
@@ -17,6 +25,7 @@ type ReplayFn = fn(&serde_json::Value) -> Option<Violation>;
 
 fn table(id: &str) -> Option<(RunFn, ReplayFn)> {
     Some(match id {
+        "C01" => (props::c01::run, props::c01::replay),
         "C06" => (props::c06::run, props::c06::replay),
         "C15" => (props::c15::run, props::c15::replay),
         _ => return None,
